@@ -11,6 +11,23 @@ fn main() {
         std::process::exit(2);
     }
     let id_arg = args[0].clone();
+    if id_arg == "fuzz-corpus" {
+        // fuzz-corpus <target> <dir> : seed corpus, deterministic in (target, VERIF_SEED)
+        let seed: u64 = std::env::var("VERIF_SEED").ok().and_then(|s| s.trim().parse::<i128>().ok()).map(|v| v as u64).unwrap_or(1);
+        let n = tverif::fuzz::write_corpus(args.get(1).expect("target"), args.get(2).expect("dir"), seed).expect("write corpus");
+        println!("{n} corpus files");
+        std::process::exit(0);
+    }
+    if id_arg == "fuzz-tape" {
+        // development aid: run one fuzz target on one input file outside libFuzzer
+        let target = args.get(1).expect("fuzz-tape <target> <file>");
+        let data = std::fs::read(args.get(2).expect("fuzz-tape <target> <file>")).expect("readable input");
+        std::env::set_var("TVERIF_FUZZ_TARGET", target);
+        run::install_panic_hook();
+        tverif::fuzz::entry(&data);
+        println!("ok: no unlisted failure on this input");
+        std::process::exit(0);
+    }
     let mut tier = match std::env::var("VERIF_TIER").ok().as_deref() {
         Some("thorough") => Tier::Thorough,
         _ => Tier::Quick,
@@ -58,11 +75,29 @@ fn main() {
     run::start_watchdog(id, 60);
 
     if let Some(path) = replay {
-        let text = std::fs::read_to_string(&path).unwrap_or_else(|e| {
+        let raw = std::fs::read(&path).unwrap_or_else(|e| {
             eprintln!("cannot read replay file {path}: {e}");
             std::process::exit(2)
         });
-        let v: serde_json::Value = serde_json::from_str(&text).expect("replay file must be JSON");
+        let text = String::from_utf8_lossy(&raw).into_owned();
+        let v: serde_json::Value = match serde_json::from_str(&text) {
+            Ok(v) => v,
+            Err(_) => {
+                // a raw libFuzzer artifact: <ID>-fuzz-<target>-<artifact name>
+                let name = std::path::Path::new(&path).file_name().and_then(|n| n.to_str()).unwrap_or("").to_string();
+                let target = name.split("-fuzz-").nth(1).and_then(|r| r.split('-').next()).unwrap_or("").to_string();
+                if target.is_empty() {
+                    eprintln!("replay file is neither JSON nor a named fuzz artifact");
+                    std::process::exit(2);
+                }
+                std::env::set_var("TVERIF_FUZZ_TARGET", &target);
+                std::env::set_var("TVERIF_FUZZ_DIR", format!("{}/replays/fuzz-replay", run::VERIF_DIR));
+                run::enable_journal();
+                tverif::fuzz::entry(&raw);
+                println!("replay of fuzz input {name}: no failure");
+                std::process::exit(0);
+            }
+        };
         ctx.strict = true;
         let sub = v["sub"].as_str().unwrap_or("").to_string();
         let ok = props::replay(&mut ctx, &sub, &v["case"]);
@@ -74,6 +109,7 @@ fn main() {
     }
 
     props::run(&mut ctx);
+    tverif::fuzz::absorb_stage(&mut ctx);
     let default_path = format!("{}/evidence/{}.json", run::VERIF_DIR, id);
     let path = evidence_path.unwrap_or(default_path);
     let code = ctx.finish(if evidence { Some(&path) } else { None });
